@@ -20,9 +20,7 @@ UPTIMES_NS = None  # filled from the translator
 def uptimes():
     global UPTIMES_NS
     if UPTIMES_NS is None:
-        import re
-        t = _clr.translate_clr()["Gen/CLR_consts.v"]
-        UPTIMES_NS = [int(x) for x in re.findall(r"\d+", t.split("clr_SupportedUptimes_ns : list Z :=")[1])]
+        UPTIMES_NS = _clr.supported_uptimes_ns()
     return UPTIMES_NS
 
 
